@@ -121,6 +121,9 @@ def grid_modules():
             out.append(('argument_compound_body.L%d.k%d' % (L, k), 'rename_locals', 'def f(%s):\n    if g():\n        return [%s]\n' % (name, uses)))
             out.append(('argument_nested_compound_body.L%d.k%d' % (L, k), 'rename_locals', 'def f(%s):\n    for i in g():\n        if i:\n            return [%s]\n' % (name, uses)))
             out.append(('argument_in_method_compound.L%d.k%d' % (L, k), 'rename_locals', 'class C:\n    def m(self, %s):\n        while g():\n            return [%s]\n' % (name, uses)))
+            out.append(('argument_def_in_except_compound.L%d.k%d' % (L, k), 'rename_locals', 'try:\n    import m\nexcept ImportError:\n    def f(%s):\n        if g():\n            return [%s]\n' % (name, uses)))
+            out.append(('argument_def_in_if_in_for_compound.L%d.k%d' % (L, k), 'rename_locals', 'for i in g():\n    if i:\n        def f(%s):\n            while g():\n                return [%s]\n' % (name, uses)))
+            out.append(('argument_match_first.L%d.k%d' % (L, k), 'rename_locals', 'def f(%s):\n    match g():\n        case 1:\n            return [%s]\n' % (name, uses)))
             out.append(('kwonly_argument.L%d.k%d' % (L, k), 'rename_locals', 'def f(*, %s=1):\n    return [%s]\n' % (name, uses)))
             out.append(('two_arguments.L%d.k%d' % (L, k), 'rename_locals', 'def f(%s, %s2):\n    return [%s], %s2\n' % (name, name, uses, name)))
             out.append(('local_import.L%d.k%d' % (L, k), 'rename_locals', 'def f():\n    import %s\n    return [%s]\n' % (name, uses)))
@@ -141,6 +144,8 @@ def grid_modules():
             out.append(('hoist_str_in_method_compound.L%d.k%d' % (L, k), 'hoist_literals', 'class C:\n    def m(self):\n        for i in g():\n            return [%s]\n' % ', '.join([lit] * k)))
             out.append(('hoist_str_after_keyword.L%d.k%d' % (L, k), 'hoist_literals', 'def h(a):\n' + ''.join('    if a == %d:\n        return %s\n' % (i, lit) for i in range(k))))
             out.append(('hoist_str_between_keywords.L%d.k%d' % (L, k), 'hoist_literals', 'def h(a):\n    return [%s]\n' % ', '.join(['%s if a else %s' % (lit, lit)] * ((k + 1) // 2))))
+            out.append(('hoist_str_def_in_except_compound.L%d.k%d' % (L, k), 'hoist_literals', 'try:\n    import m\nexcept ImportError:\n    def h():\n        if g():\n            x = [%s]\n' % ', '.join([lit] * k)))
+            out.append(('hoist_str_match_first.L%d.k%d' % (L, k), 'hoist_literals', 'def h():\n    match g():\n        case 1:\n            x = [%s]\n' % ', '.join([lit] * k)))
             out.append(('hoist_bytes.L%d.k%d' % (L, k), 'hoist_literals', 'f([%s])\n' % ', '.join(['b' + lit] * k)))
     for k in range(1, 9):
         for c in ('None', 'True', 'False'):
@@ -212,11 +217,41 @@ def main(tier, seed):
             slim['items'] = c['items']
         run.add(slim, r)
     pool.run_cases(chunks, 'vf.props.C17:run_grid_case', timeout=120, batch=1, on_result=on_g, deadline=run.deadline)
+    # the cost grid again with the minifier running in other interpreters (python 2 parameters are Name nodes with a Param context, 3.6 / 3.7 literals are Num / Str)
+    step = 5 if tier == 'quick' else 1
+    gops = [{'op': 'size_pair', 'src': src, 'option': option, 'tag': tag, 'case_timeout': 30} for tag, option, src in grid[::step]]
+    for version, py in common.interpreters():
+        if version == '3.12-venv' or run.timed_out():
+            continue
+        if tier == 'quick' and version not in ('2.7.18', '3.6.15', '3.10.13', '3.13.0'):
+            continue
+
+        def on_x(c, r, version=version):
+            slim = {'layer': 'grid-cross', 'interpreter': version, 'tag': c['tag'], 'option': c['option']}
+            if 'inconclusive' in r and r.get('status') is None:
+                run.add(slim, r)
+                return
+            out = {'status': r.get('status'), 'violations': [], 'counters': {}, 'nontrivial': []}
+            if r.get('status') == 'skip':
+                out['reason'] = 'grid-cross: ' + r.get('reason', 'skip')
+            else:
+                out['counters'] = {'cross_interpreter_grid_pairs': r.get('pairs', 0)}
+                run.cell('cross_interpreter_grid', version)
+                if r.get('changed'):
+                    out['nontrivial'] = ['gridx|%s|%s' % (version, c['tag'])]
+            for v in r.get('violations') or []:
+                out['violations'].append({'mech': 'C17.grid.' + c['tag'].split('.')[0], 'detail': '%s cost grid %s: %s' % (version, c['tag'], v['detail']), 'witness': {'src': c['src'], 'interpreter': version}})
+            if out['violations']:
+                slim['src'] = c['src']
+            run.add(slim, out)
+        env = common.clean_env()
+        env['PYTHONPATH'] = common.REPO_SRC
+        pool.run_cases(gops, None, cmd=[py, '-W', 'ignore', os.path.join(common.VERIF, 'vf', 'compat_worker.py')], env=env, timeout=40, batch=25, on_result=on_x, deadline=run.deadline, nworkers=4)
     return run.finish(
         rule='pinned corpus of CPython 3.12 stdlib modules (sha256 manifest in corpus/; thorough: plus the pure-Python packages of the installed 3.12 standard library) x 14 size-motivated switches x bases '
              '{all off, default}; non-trivial/distinct = distinct (file, option, base) where the option changed the output at all',
         assumptions=['the pinned corpus stands for "real-world modules"', 'length in characters of the returned str'],
-        min_nontrivial=50, required_counters=['pairs', 'grid_pairs'])
+        min_nontrivial=50, required_counters=['pairs', 'grid_pairs', 'cross_interpreter_grid_pairs'])
 
 
 def replay(path):
